@@ -839,35 +839,39 @@ def rule_dfg(ctx):
     for name, (B, ref) in specs.items():
         f = ctx.model.func("hashes", name)
         ctx.analysed_funcs.add(f.key)
-        try:
-            paths = HB.HInterp(ctx.model, f, B).run_public()
-        except HB.HUndecided as u:
-            ctx.ob("dfg", f, f.node, "%s: value-numbering of all paths" % name, "every path's result term is computable", None, str(u))
-            continue
+        # exhaustive case split on (len % B, len // B > 0): inside a case the tests on the residue and on the block count are decided
+        # and residue-bounded loops unroll, so a tail written as a switch, as nested ifs or as a loop yields the same term
         seen = {}
-        for assume, has_loop, term in paths:
-            rs = [a[0][1] for a in assume if a[0][0] == "res" and a[1]]
-            r = rs[0] if rs else 0
-            hb = [a[1] for a in assume if a[0][0] == "hasblocks"]
-            if hb and hb[-1] != has_loop:
-                ctx.ob("dfg", f, f.node, "%s: residue %d" % (name, r), "blocks are folded exactly when there are blocks", False,
-                       "path takes the `has blocks` branch=%s but %s the block loop" % (hb[-1], "runs" if has_loop else "skips"))
-                continue
-            key = (r, has_loop)
-            # data-dependent branches: on the branch where a term is known to be 0 both sides are compared under that equation
-            zeros = [a[0][1] for a in assume if a[0][0] == "nonzero" and (a[1] == a[0][2])]
-            try:
-                got = HB.subst_zero(HB.nf(term, f.rtype.bits), zeros, f.rtype.bits)
-                want = HB.subst_zero(HB.nf(ref(r, has_loop), f.rtype.bits), zeros, f.rtype.bits)
-            except AnalysisError as e:
-                ctx.ob("dfg", f, f.node, "%s: residue %d" % (name, r), "normal form computable", None, str(e))
-                continue
-            d = HB.diff(got, want)
-            seen[key] = seen.get(key, True) and d is None
-            ztxt = (", when %s == 0" % " and ".join(HB.show(z)[:40] for z in zeros)) if zeros else ""
-            ctx.ob("dfg", f, f.node, "%s: len %% %d == %d, %s%s" % (name, B, r, "with whole blocks" if has_loop else "no whole block", ztxt),
-                   "the result term equals the published %s on this path (Herbrand normal form modulo 2^%d)" % ("FastHash64" if name == "fasthash64" else "MurmurHash3_x86_32", f.rtype.bits),
-                   d is None, "" if d is None else d)
+        for r in range(B):
+            for has_blocks in (False, True):
+                label = "%s: len %% %d == %d, %s" % (name, B, r, "with whole blocks" if has_blocks else "no whole block")
+                try:
+                    paths = HB.HInterp(ctx.model, f, B, case=(r, has_blocks)).run_public()
+                except HB.HUndecided as u:
+                    ctx.ob("dfg", f, f.node, label, "every path's result term is computable", None, str(u))
+                    continue
+                except RecursionError:
+                    ctx.ob("dfg", f, f.node, label, "every path's result term is computable", None, "term too deep")
+                    continue
+                for assume, has_loop, term in paths:
+                    # the residue / block-count tests were decided by the case; what is left are data-dependent tests
+                    stray = [a for a in assume if a[0][0] in ("res", "hasblocks")]
+                    if stray:
+                        ctx.ob("dfg", f, f.node, label, "tests on the tail length / block count are decided by the case", None, "undecided test %r" % (stray[0],))
+                        continue
+                    zeros = [a[0][1] for a in assume if a[0][0] == "nonzero" and (a[1] == a[0][2])]
+                    try:
+                        got = HB.subst_zero(HB.nf(term, f.rtype.bits), zeros, f.rtype.bits)
+                        want = HB.subst_zero(HB.nf(ref(r, has_blocks), f.rtype.bits), zeros, f.rtype.bits)
+                    except AnalysisError as e:
+                        ctx.ob("dfg", f, f.node, label, "normal form computable", None, str(e))
+                        continue
+                    d = HB.diff(got, want)
+                    seen[(r, has_blocks)] = seen.get((r, has_blocks), True) and d is None
+                    ztxt = (", when %s == 0" % " and ".join(HB.show(z)[:40] for z in zeros)) if zeros else ""
+                    ctx.ob("dfg", f, f.node, label + ztxt,
+                           "the result term equals the published %s in this case (Herbrand normal form modulo 2^%d)" % ("FastHash64" if name == "fasthash64" else "MurmurHash3_x86_32", f.rtype.bits),
+                           d is None, "" if d is None else d)
         for r in range(B):
             if not any(k[0] == r for k in seen):
                 ctx.ob("dfg", f, f.node, "%s: residue %d" % (name, r), "every tail length has a path", False, "no path handles len %% %d == %d" % (B, r))
